@@ -198,6 +198,46 @@ def task_coords_attrs(ctx):
     ctx.violation('coordinate_system_attrs_roundtrip', dict(config=dict(cases=n), kind='attrs'), dict(cases=[str(b) for b in bad]), f'attrs round trip changes the discretisation: {bad[0]}')
 
 
+def task_coords_attrs_symbolic(ctx, timeout):
+  """Coordinate-system attribute round trip with SYMBOLIC grid sizes / spacing / offset / radius / layer count / implementation through the real
+  asdict and coordinate_system_from_attrs code (CrossHair + z3).  'Confirmed over all paths' is a verdict for every value in the stated ranges;
+  the reachability twin (postcondition False) must yield a counterexample, otherwise the harness is vacuous."""
+  from dinosaur import xarray_utils as xu, coordinate_systems as cs, spherical_harmonic as sh
+  ctx.encoded(cs.CoordinateSystem.asdict, sh.Grid.asdict, xu.coordinate_system_from_attrs)
+  target = os.path.join(HERE, 'c19_attrs_crosshair.py')
+  conf = dict(ranges='M, L <= 1024, longitude nodes <= 4096, latitude nodes <= 2048, layers <= 256, offset in [-7, 7], radius in [1e-3, 1e7], 3 spacings', budget_s=timeout)
+  t0 = time.time()
+  twin = _crosshair(target, 'attrs_roundtrip_reachable', timeout)
+  if 'false when calling attrs_roundtrip_reachable' not in twin:
+    ctx.error('coordinate_system_attrs_roundtrip_symbolic', f'reachability twin found no call: {twin[:200]}')
+    return
+  ctx.res['twins']['sat'] += 1
+  import checks.c19_attrs_crosshair as ch
+  for impl, fnname in enumerate(('attrs_roundtrip_real', 'attrs_roundtrip_fast')):
+    cf = dict(conf, implementation=('RealSphericalHarmonics', 'FastSphericalHarmonics')[impl])
+    t0 = time.time()
+    txt = _crosshair(target, fnname, timeout)
+    m = re.search(r'when calling ' + fnname + r'\((.*?)\)(?: \(which|\s*$)', txt, re.M)
+    if m:
+      try:
+        args = ast.literal_eval('(' + m.group(1) + ',)')
+        ok = ch._trip(*args, impl)
+      except Exception as e:  # noqa: BLE001
+        args = m.group(1); ok = f'{type(e).__name__}: {e}'
+      if ok is not True:
+        ctx.violation('coordinate_system_attrs_roundtrip_symbolic', dict(config=cf, kind='attrs'), dict(inputs=list(args) if not isinstance(args, str) else args, outcome=str(ok)),
+                      f'coordinate system (M, L, nlon, nlat, spacing, offset, radius, layers) = {args} is not reconstructed from its attributes ({ok})')
+        ctx.clause('coordinate_system_attrs_roundtrip_symbolic', 'failed', config=cf, queries=1)
+      else:
+        ctx.error('coordinate_system_attrs_roundtrip_symbolic', f'CrossHair counterexample does not reproduce: {args}')
+      continue
+    if 'Confirmed over all paths' in txt:
+      ctx.clause('coordinate_system_attrs_roundtrip_symbolic', 'discharged', config=dict(cf, crosshair='Confirmed over all paths', exhaustive=True), queries=1, wall=time.time() - t0)
+    else:
+      ctx.clause('coordinate_system_attrs_roundtrip_symbolic', 'inconclusive', config=dict(cf, crosshair=txt[:200]), queries=1)
+      ctx.error('coordinate_system_attrs_roundtrip_symbolic', f'CrossHair inconclusive: {txt[:200]}')
+
+
 def task_dataset(ctx, cfg, layers, kind):
   """data_to_xarray -> xarray_to_*: dimension names are the intended ones and values read back bit-identical
   (the code never inspects values: identity of the stored arrays is checked with distinct sentinels)."""
@@ -253,7 +293,8 @@ def make_tasks(tier, seed):
   tasks = [dict(name='tree-utils', fn='task_tree_utils', kw={}),
            dict(name='resample-real', fn='task_spectral_resampling', kw=dict(coarse=dict(M=3, L=4, nlon=8, nlat=5), fine=dict(M=5, L=6, nlon=16, nlat=8), levels=LS['dy2'].tolist())),
            dict(name='resample-fast', fn='task_spectral_resampling', kw=dict(coarse=dict(M=2, L=3, nlon=6, nlat=4, impl='fast'), fine=dict(M=4, L=6, nlon=12, nlat=7, impl='fast'), levels=LS['eq3'].tolist())),
-           dict(name='coords-attrs', fn='task_coords_attrs', kw={})]
+           dict(name='coords-attrs', fn='task_coords_attrs', kw={}),
+           dict(name='coords-attrs-symbolic', fn='task_coords_attrs_symbolic', kw=dict(timeout=90))]
   budget = 40 if tier == 'quick' else 240
   for h in ch.HARNESSES:
     tasks.append(dict(name=f'flatten-{h}', fn='task_flatten', kw=dict(harness_name=h, timeout=budget)))
